@@ -224,6 +224,39 @@ def smooth_cases(ctx, rnd, focus):
     return out
 
 
+def big_holdout(ctx):
+    """C11 at study size (tens of thousands of experiments; TLC validates the small ones): the hold-out clauses evaluated in the harness -
+    partition, ceil(fraction x size) from every unobserved plate, nothing from observed plates, masks as stated"""
+    import time
+    n_pl, per = (35, 2000) if ctx.quick else (45, 3000)
+    N = n_pl * per
+    rng = np.random.default_rng(ctx.seed)
+    tn = np.array([["A", "B"]] * N, dtype=str)
+    td = np.ones((N, 2))
+    sn = np.array(["smp%d" % (i % 7) for i in range(N)], dtype=str)
+    pn = np.array(["plate_%03d" % (i // per) for i in range(N)], dtype=str)
+    obs = np.arange(N, dtype=float) * 1e-6 + 0.1            # the value identifies the experiment
+    mask = np.array([(i // per) in (0, 7) for i in range(N)])
+    scr = Screen(treatment_names=tn, treatment_doses=td, sample_names=sn, plate_names=pn, observations=obs, observation_mask=mask, control_treatment_name="ctl")
+    st, r = outcome(R.create_plate_balanced_holdout_set_among_masked_plates, scr, 0.25, rng)
+    ctx.evaluations += 1
+    if st != "ok":
+        return "hold-out split of %d experiments raised %s" % (N, r)
+    train, test = r
+    tr_id, te_id = np.rint((train.observations - 0.1) * 1e6).astype(int), np.rint((test.observations - 0.1) * 1e6).astype(int)
+    if len(set(tr_id.tolist()) | set(te_id.tolist())) != N or len(tr_id) + len(te_id) != N:
+        return "hold-out split of %d experiments is not a partition (%d + %d rows, %d distinct)" % (N, len(tr_id), len(te_id), len(set(tr_id.tolist()) | set(te_id.tolist())))
+    cnt = np.bincount(te_id // per, minlength=n_pl)
+    want = np.array([0 if p in (0, 7) else math.ceil(per * 0.25) for p in range(n_pl)])
+    if not np.array_equal(cnt, want):
+        bad = [int(p) for p in np.nonzero(cnt != want)[0]][:5]
+        return "hold-out split of %d experiments: plates %s give %s experiments to the hold-out, stated ceil(0.25 x %d) from unobserved plates and none from observed ones" % (
+            N, bad, [int(cnt[p]) for p in bad], per)
+    if not test.observation_mask.all() or not np.array_equal(train.observation_mask, np.isin(tr_id // per, (0, 7))):
+        return "hold-out split of %d experiments: masks are not as stated (test observed, training mask unchanged)" % N
+    return None
+
+
 def run_retro(ctx, focus):
     from harness import tlc
     from harness.tracecheck import validate
@@ -323,6 +356,10 @@ def run_retro(ctx, focus):
             i, c = only[0]
             print("NOTE model-drift property=C13: %d real smoother call(s) satisfy the clauses of C13 but are not outcomes of the generative transcription in "
                   "Smooth.tla (first: %s%s at '%s'); the transcription needs updating" % (len(only), gen[i]["op"], (gen[i]["p1"],), c))
+    if focus == "C11":
+        msg = big_holdout(ctx)
+        if msg:
+            ctx.violation(msg, {"kind": "big-holdout"})
     ctx.extra["calls_returned"] = returned_by_op
     ctx.extra["calls_not_returned"] = not_returned
     ctx.sample({"op": traces[0]["op"], "params": [traces[0]["p1"]], "inp": traces[0]["inp"], "out": traces[0]["out"]})
